@@ -214,8 +214,8 @@ def compare_step(op, arg, node, ev):
 # --------------------------------------------------------------------------------------------
 # harness + judge
 # --------------------------------------------------------------------------------------------
-def run_harness(bindir, args, timeout=900):
-    p = core.run_cmd([os.path.join(bindir, "ring")] + [str(a) for a in args], timeout=timeout, check=False)
+def run_harness(bindir, args, timeout=900, env=None):
+    p = core.run_cmd([os.path.join(bindir, "ring")] + [str(a) for a in args], timeout=timeout, check=False, env=env)
     if p.returncode != 0:
         raise core.ToolError("ring harness died rc=%s: %s" % (p.returncode, p.stderr[-2000:]))
     runs = []   # list of (reset event, [events])
@@ -259,7 +259,7 @@ class Stream:
         if self._f is None or self._lines >= self.batch:
             self._rotate()
         k = len(self.meta)
-        self.meta.append(dict(meta, reset={x: reset.get(x) for x in ("ns", "nc", "flags", "h", "sq0", "cq0", "build")}))
+        self.meta.append(dict(meta, reset={x: reset.get(x) for x in ("ns", "nc", "flags", "h", "sq0", "cq0", "build", "boundary_bits")}))
         w = self._f.write
         w(json.dumps({"ev": "reset", "run": k, "ns": reset["ns"], "nc": reset["nc"], "arr": reset.get("arr", list(range(reset["ns"])))}, separators=(",", ":")) + "\n")
         self._lines += 1
@@ -318,14 +318,14 @@ class Stream:
                         break
             ppath = os.path.join(self.chk.work, "rerun_plan.ndjson")
             core.write_ndjson(ppath, [plan])
-            runs = run_harness(bindir, ["plan", ppath])
+            runs = run_harness(bindir, ["plan", ppath], env=m.get("env"))
             evs = runs[0][1]
         else:
             r = m["random_ref"]
             cmd = r.get("cmd") or (["random"] + r["args"])
-            key = (m["reset"]["build"], json.dumps(cmd))
+            key = (m["reset"]["build"], json.dumps(cmd), json.dumps(m.get("env")))
             if getattr(self, "_cache_key", None) != key:
-                self._cache_key, self._cache = key, run_harness(bindir, cmd)
+                self._cache_key, self._cache = key, run_harness(bindir, cmd, env=m.get("env"))
             evs = self._cache[r["run"]][1]
         return plan, m.get("random_ref"), [e for e in evs if e["ev"] != "skip"]
 
@@ -351,7 +351,8 @@ def report_stream(chk, stream, bad, bindirs, detail_cap=6):
         key = (why, reset["build"])
         seen[key] = seen.get(key, 0) + 1
         h = reset["h"]
-        pos0 = lambda x: ("2^32-%d" % (h - x)) if x < h else str(x - h)
+        bb = reset.get("boundary_bits") or 32
+        pos0 = lambda x: ("2^%d-%d" % (bb, h - x)) if x < h else ("2^%d+%d" % (bb, x - h) if bb < 32 else str(x - h))
         if seen[key] <= detail_cap:
             plan, rnd, evs = stream.events_of(r, bindirs)
             ev = evs[e] if 0 <= e < len(evs) else {"ev": "reset" if e < 0 else "?"}
